@@ -346,7 +346,9 @@ class Session:
 
         self.compression_method = record.binary[index + 2]
 
-        extensions_length = int.from_bytes(record.binary[index + 3: index + 5], 'big')
+        # a ServerHello without extensions ends here; the next handshake message of the record must not be read as extensions
+        hello_end = 4 + int.from_bytes(record.binary[1:4], 'big')
+        extensions_length = int.from_bytes(record.binary[index + 3: index + 5], 'big') if index + 3 < hello_end else 0
         extensions_bin = record.binary[index + 5: index + 5 + extensions_length]
 
         self.extensions = {}
